@@ -227,6 +227,8 @@ proof fn lemma_empty_ms<T>(s: Seq<T>)
 }
 
 pub struct TraversalQueue { pub entries: Vec<Location>, pub partition: usize }
+/// the reusable buffer traversals are handed (storage/mod.rs); fields as in the repository
+pub struct TraversalBuffer { pub queue: TraversalQueue }
 
 impl TraversalQueue {
     pub open spec fn wf(&self) -> bool { self.partition <= self.entries@.len() }
@@ -770,6 +772,19 @@ DRAIN_ALL = FnSpec(FILE, 'drain_all', IMPL,
     ])
 
 
+# TraversalBuffer: the reuse wrapper every traversal goes through (`buffers.primary.get()` etc.). Whatever an
+# earlier, possibly aborted, traversal left in the buffer, the queue handed out is empty, partition 0, well formed.
+# No precondition (must hold from any prior state). `*final(r) == final(self).queue`: the caller's edits land in the buffer.
+BIMPL = r'impl TraversalBuffer\b'
+BUF_NEW = FnSpec(FILE, 'new', BIMPL, sig_rewrites=[('pub const fn', 'pub fn', 1, 'const dropped')], contract='''
+    ensures r.queue.wf(), r.queue.entries@.len() == 0, r.queue.partition == 0,
+''')
+BUF_GET = FnSpec(FILE, 'get', BIMPL, contract='''
+    ensures r.wf(), r.entries@.len() == 0, r.partition == 0, r.uniq(),
+        *final(r) == final(self).queue,
+''')
+
+
 def build():
     ru = FnSpec(FILE, 'remove_uncovered', IMPL, contract=REMOVE_UNCOVERED.contract,
                 rewrites=[(o, n.replace('GHOSTPROOF', REMOVE_UNCOVERED_PROOF), c, r) for o, n, c, r in REMOVE_UNCOVERED.rewrites])
@@ -777,5 +792,5 @@ def build():
                 inserts=[x for x in PUSH_COVERED.inserts if x[0] != 'end'])
     specs = [NEW, CLEAR, IS_EMPTY, ALL_COVERED, pc, PUSH, PUSH_DUPLICATE, ru, POP_COVERED, POP, PEEK, COVER_UP_TO,
              DRAIN_ABOVE, DRAIN_ALL]
-    text, located, dropped, raws = build_unit(PRELUDE, [(IMPL, specs)], POSTLUDE)
+    text, located, dropped, raws = build_unit(PRELUDE, [(IMPL, specs), ('impl TraversalBuffer', [BUF_NEW, BUF_GET])], POSTLUDE)
     return text, located, dropped, raws
